@@ -9,6 +9,7 @@ import (
 
 	"github.com/corazawaf/coraza/v3/internal/corazatypes"
 	utils "github.com/corazawaf/coraza/v3/internal/strings"
+	"github.com/corazawaf/coraza/v3/internal/verifhook"
 	"github.com/corazawaf/coraza/v3/types"
 	"github.com/corazawaf/coraza/v3/types/variables"
 )
@@ -157,6 +158,7 @@ func (rg *RuleGroup) Eval(phase types.RulePhase, tx *Transaction) bool {
 		Int("phase", int(phase)).
 		Msg("Evaluating phase")
 
+	verifhook.Event(verifhook.PhaseBegin, tx, int(phase), 0)
 	tx.lastPhase = phase
 	usedRules := 0
 	ts := time.Now().UnixNano()
@@ -258,6 +260,7 @@ RulesLoop:
 			tx.variables.matchedVars.Reset()
 		}
 
+		verifhook.Event(verifhook.RuleEval, tx, r.ID_, int(phase))
 		r.Evaluate(phase, tx, transformationCache)
 		tx.Capture = false // we reset captures
 		usedRules++
@@ -276,6 +279,7 @@ RulesLoop:
 	tx.Skip = 0
 
 	tx.stopWatches[phase] = time.Now().UnixNano() - ts
+	verifhook.Event(verifhook.PhaseEnd, tx, int(phase), 0)
 	return tx.IsInterrupted()
 }
 
